@@ -1,12 +1,220 @@
 (* C14 — orders, dtrees and vtrees derived from a formula are well formed.  Property theorems
-   only: each is closed by [exact], and followed by [Print Assumptions]. *)
+   only: each is closed by [exact] (or a short intros/apply), and followed by [Print Assumptions].
+   Models: Model/VarOrder.v, Model/VTree.v, Model/DTree.v ([None] = the code panics / diverges). *)
 From Coq Require Import Bool List Lia Arith Permutation.
 Import ListNotations.
 From RsddV Require Import Model.VarOrder Model.VTree Model.DTree
-  Proofs.VarOrder Proofs.VTreeBase Proofs.VTreeTrav Proofs.VTree.
+  Proofs.VarOrder Proofs.VTreeBase Proofs.VTreeTrav Proofs.VTree Proofs.DTree Proofs.Orders.
 
-(* ---------- VarOrder ---------- *)
+(* ================= VarOrder ================= *)
+
+(* VarOrder::new on a permutation of 0..n-1 succeeds and yields mutually inverse maps *)
 Theorem C14_order_new_wf : forall o n, Permutation o (seq 0 n) ->
   exists r, order_new o = Some r /\ wf_order r /\ pos_to_var r = o /\ num_vars r = n.
 Proof. exact order_new_wf. Qed.
 Print Assumptions C14_order_new_wf.
+Check C14_order_new_wf : forall o n, Permutation o (seq 0 n) ->
+  exists r, order_new o = Some r /\ wf_order r /\ pos_to_var r = o /\ num_vars r = n.
+
+(* the guard is real: a label >= len makes VarOrder::new panic *)
+Theorem C14_order_new_panics : forall o x, In x o -> length o <= x -> order_new o = None.
+Proof. exact order_new_panics. Qed.
+Print Assumptions C14_order_new_panics.
+
+Theorem C14_linear_wf : forall n, exists r, linear_order n = Some r /\ wf_order r /\ num_vars r = n /\
+  (forall v, v < n -> get r v = Some v /\ var_at_level r v = Some v).
+Proof. exact linear_wf. Qed.
+Print Assumptions C14_linear_wf.
+
+(* run-time extension keeps well-formedness, every old position and level; new label is last *)
+Theorem C14_new_last_wf : forall r, wf_order r ->
+  let n := num_vars r in
+  let r' := fst (new_last r) in
+  wf_order r' /\ snd (new_last r) = n /\ num_vars r' = S n /\
+  (forall v, v < n -> get r' v = get r v /\ var_at_level r' v = var_at_level r v) /\
+  get r' n = Some n /\ var_at_level r' n = Some n.
+Proof. exact new_last_wf. Qed.
+Print Assumptions C14_new_last_wf.
+
+(* lt is the strict order of positions, total on the labels of a well-formed order *)
+Theorem C14_lt_total : forall r a b, wf_order r -> a < num_vars r -> b < num_vars r ->
+  exists pa pb, get r a = Some pa /\ get r b = Some pb /\ lt r a b = Some (pa <? pb) /\
+                (pa = pb <-> a = b).
+Proof. exact lt_total. Qed.
+Print Assumptions C14_lt_total.
+
+(* first_essential returns the variable of one of its arguments, minimal in position *)
+Theorem C14_first_essential_min : forall (T : Type) (var : T -> option nat) r a b c v,
+  first_essential var r a b c = Some v ->
+  (var a = Some v \/ var b = Some v \/ var c = Some v) /\
+  forall pv, get r v = Some pv ->
+    forall x w pw, In x [a; b; c] -> var x = Some w -> get r w = Some pw -> pv <= pw.
+Proof. intros T. exact (@first_essential_min T). Qed.
+Print Assumptions C14_first_essential_min.
+
+(* ================= heuristic orders ================= *)
+
+(* min-fill: a permutation of 0..n-1 for EVERY way of choosing the node to eliminate *)
+Theorem C14_minfill_perm : forall pick cls, valid_pick pick ->
+  let n := cnf_num_vars cls in
+  exists ord r, min_fill_elim pick cls = Some ord /\ Permutation ord (seq 0 n) /\
+                min_fill_order pick cls = Some r /\ wf_order r /\ pos_to_var r = ord /\ num_vars r = n.
+Proof. exact minfill_perm. Qed.
+Print Assumptions C14_minfill_perm.
+
+(* ... in particular for the code's choice (first node of minimal fill-in, swap-remove order) *)
+Theorem C14_pick_minfill_valid : valid_pick pick_minfill.
+Proof. exact pick_minfill_valid. Qed.
+Print Assumptions C14_pick_minfill_valid.
+
+(* FORCE: for every key type, comparison, key oracle (the f64 centres of gravity) and iteration
+   count, on a non-empty clause list without an empty clause next to variables, the result is a
+   well-formed order; it is VarOrder::new of the computed label->position map, i.e. the inverse
+   of the placement the heuristic computed *)
+Theorem C14_force_perm : forall (K : Type) (leb : K -> K -> bool) (key : nat -> list nat -> nat -> K) cls extra,
+  force_guard cls ->
+  let n := cnf_num_vars cls in
+  exists placement r, force_placement K leb key cls extra = Some placement /\
+    Permutation placement (seq 0 n) /\
+    force_order K leb key cls extra = Some r /\ wf_order r /\ num_vars r = n /\
+    pos_to_var r = placement /\
+    (forall v, v < n -> get r (nth v placement 0) = Some v).
+Proof. exact force_perm. Qed.
+Print Assumptions C14_force_perm.
+
+(* guard: the loop of force_order never ends on the empty clause list (NaN < 1.0 is false) *)
+Theorem C14_force_empty_diverges : forall K leb key extra, force_order K leb key [] extra = None.
+Proof. exact force_empty_diverges. Qed.
+Print Assumptions C14_force_empty_diverges.
+
+(* ================= dtrees ================= *)
+
+(* guard: DTree::from_cnf panics on the empty clause list, for every elimination order *)
+Theorem C14_from_cnf_empty_panics : forall elim, from_cnf [] elim = None.
+Proof. exact from_cnf_empty_panics. Qed.
+Print Assumptions C14_from_cnf_empty_panics.
+
+(* the leaves are exactly the CNF's clauses (as a multiset), for any elimination order *)
+Theorem C14_dtree_leaves : forall cls elim, cls <> [] ->
+  exists d, from_cnf cls elim = Some d /\ Permutation (leaves d) cls.
+Proof. exact dtree_leaves. Qed.
+Print Assumptions C14_dtree_leaves.
+
+(* vars(n) = vars(l) U vars(r) at every node, a leaf's vars are its clause's variables, and the
+   root's set is the set of variables occurring in the CNF (code as repaired by cec595a) *)
+Theorem C14_dtree_vars : forall cls elim d, from_cnf cls elim = Some d ->
+  vars_ok d /\ forall x, In x (get_vars d) <-> exists cl, In cl cls /\ In x (clause_vars cl).
+Proof. exact dtree_vars. Qed.
+Print Assumptions C14_dtree_vars.
+
+(* the pinned code (no init_vars on the tree joining the independent subtrees) violates it *)
+Theorem C14_dtree_vars_refuted_pinned :
+  exists cls elim d, from_cnf_gen true cls elim = Some d /\ ~ vars_ok d.
+Proof. exact dtree_vars_refuted_pinned. Qed.
+Print Assumptions C14_dtree_vars_refuted_pinned.
+
+(* cutset(n) = (vars(l) /\ vars(r)) \ ancestors' cutsets, for leaves vars \ ancestors' cutsets,
+   with the variable sets recomputed from the clauses below each node *)
+Theorem C14_dtree_cutset : forall cls elim d, from_cnf cls elim = Some d ->
+  cut_ok (fun _ => False) d /\ cuts_nodup d.
+Proof. exact dtree_cutset. Qed.
+Print Assumptions C14_dtree_cutset.
+
+(* the vtree of the dtree has every variable occurring in a clause as exactly one leaf; variables
+   that occur in no clause (unused indices) are not in the vtree; None iff no variable occurs *)
+Theorem C14_vtree_of_dtree_leaves : forall cls elim d, from_cnf cls elim = Some d ->
+  match from_dtree d with
+  | Some vt => NoDup (flatten vt) /\
+               forall x, In x (flatten vt) <-> exists cl, In cl cls /\ In x (clause_vars cl)
+  | None => forall cl, In cl cls -> clause_vars cl = []
+  end.
+Proof. exact vtree_of_dtree_leaves. Qed.
+Print Assumptions C14_vtree_of_dtree_leaves.
+
+(* ================= VTreeManager ================= *)
+
+(* VTreeManager::new succeeds exactly on trees without a repeated label *)
+Theorem C14_manager_new_total : forall t, NoDup (flatten t) <-> exists m, manager_new t = Some m.
+Proof. exact manager_new_total. Qed.
+Print Assumptions C14_manager_new_total.
+
+(* indices are the in-order numbering [idx] (left subtree, node, right subtree): the subtree table
+   and the label table agree with it *)
+Theorem C14_vtree_index_inorder : forall t m, manager_new t = Some m ->
+  length (m_index_lookup m) = size t /\
+  (forall p s, subtree t p = Some s -> mgr_vtree m (idx t p) = Some s) /\
+  (forall p v, subtree t p = Some (VLeaf v) -> var_index m v = Some (idx t p)).
+Proof. exact vtree_index_inorder. Qed.
+Print Assumptions C14_vtree_index_inorder.
+
+(* Euler tour + range minimum over breadth-first indices = least common ancestor (the node at
+   the longest common prefix of the two paths); segment_tree::query = min of the half-open slice *)
+Theorem C14_lca_correct : forall t m p q, manager_new t = Some m -> valid t p -> valid t q ->
+  mgr_lca m (idx t p) (idx t q) = Some (idx t (lcp p q)).
+Proof. exact lca_correct. Qed.
+Print Assumptions C14_lca_correct.
+
+(* is_prime_index i j  <=>  with a = lca: i is a or below a's left child, j is a or below a's
+   right child, and i <> j *)
+Theorem C14_is_prime_iff : forall t p q, valid t p -> valid t q ->
+  (is_prime_index (idx t p) (idx t q) = true <-> prime_rel p q).
+Proof. exact is_prime_iff. Qed.
+Print Assumptions C14_is_prime_iff.
+
+(* num_vars (as repaired by f828b19) is the number of leaves = the number of variables *)
+Theorem C14_num_vars_count : forall t m, manager_new t = Some m ->
+  mgr_num_vars m = length (flatten t) /\
+  forall n, Permutation (flatten t) (seq 0 n) -> mgr_num_vars m = n.
+Proof. exact num_vars_count. Qed.
+Print Assumptions C14_num_vars_count.
+
+(* the constructors keep the given order of the labels *)
+Theorem C14_constructors_flatten : forall o t,
+  (right_linear o = Some t -> flatten t = o) /\ (left_linear o = Some t -> flatten t = o) /\
+  (forall k, even_split o k = Some t -> flatten t = o) /\
+  (forall choose fuel, rand_split choose fuel o = Some t -> flatten t = o).
+Proof.
+  intros o t. repeat split.
+  - apply right_linear_flatten.
+  - apply left_linear_flatten.
+  - intros k. apply even_split_flatten.
+  - intros choose fuel. apply rand_split_flatten.
+Qed.
+Print Assumptions C14_constructors_flatten.
+
+(* ================= non-vacuity ================= *)
+(* (x0 v -x1) & (x1 v x2) & (x2 v x3) & (x5): two components, index 4 unused; min-fill order by
+   the code's choice; dtree; vtree; manager; an lca and a prime test *)
+Example C14_nonvacuous :
+  let cls := [[(0, true); (1, false)]; [(1, true); (2, true)]; [(2, true); (3, true)]; [(5, true)]] in
+  exists r d vt m,
+    min_fill_order pick_minfill cls = Some r /\ wf_order r /\ num_vars r = 6 /\
+    from_cnf cls (pos_to_var r) = Some d /\ Permutation (leaves d) cls /\
+    from_dtree d = Some vt /\ Permutation (flatten vt) [0; 1; 2; 3; 5] /\
+    manager_new vt = Some m /\ mgr_num_vars m = 5 /\
+    valid vt [false] /\ valid vt [true; true] /\
+    mgr_lca m (idx vt [false]) (idx vt [true; true]) = Some (idx vt []) /\
+    is_prime_index (idx vt [false]) (idx vt [true; true]) = true.
+Proof.
+  cbv zeta.
+  destruct (C14_minfill_perm pick_minfill
+    [[(0, true); (1, false)]; [(1, true); (2, true)]; [(2, true); (3, true)]; [(5, true)]]
+    C14_pick_minfill_valid) as (ord & r & _ & _ & Er & W & _ & Nv).
+  exists r. rewrite Er.
+  assert (Eo : min_fill_order pick_minfill
+    [[(0, true); (1, false)]; [(1, true); (2, true)]; [(2, true); (3, true)]; [(5, true)]] = Some r) by exact Er.
+  vm_compute in Eo. inversion Eo; subst r. clear Eo Er.
+  eexists. eexists. eexists.
+  split; [reflexivity|]. split; [exact W|]. split; [exact Nv|].
+  split; [vm_compute; reflexivity|].
+  split; [vm_compute; repeat first [apply Permutation_refl | apply perm_skip | (eapply Permutation_trans; [|apply perm_swap])]|].
+  split; [vm_compute; reflexivity|].
+  split; [apply NoDup_Permutation; [repeat constructor; simpl; intuition discriminate
+                                   |repeat constructor; simpl; intuition discriminate
+                                   |intros x; simpl; intuition]|].
+  split; [vm_compute; reflexivity|].
+  split; [vm_compute; reflexivity|].
+  split; [eexists; vm_compute; reflexivity|].
+  split; [eexists; vm_compute; reflexivity|].
+  split; vm_compute; reflexivity.
+Qed.
